@@ -198,6 +198,12 @@ func genOptionListShape(g *gen, repo string) {
 		fail("SetResponse: no call of ResetOptionsTo")
 	}
 	fmt.Fprintf(&b, "/-- net/responsewriter/responseWriter.go: SetResponse: `ResetOptionsTo(opts)` is an unconditional top-level statement (read from the AST) -/\ndef setResponseAlwaysResets : Bool := %s\n", boolLean(top))
+	_, fc := parseFile(repo, "net/client/client.go")
+	nor := funcDecl(fc, "Client", "NewObserveRequest")
+	if !containsCall(nor.Body, "NewGetRequest") {
+		fail("NewObserveRequest: no call of NewGetRequest")
+	}
+	fmt.Fprintf(&b, "/-- net/client/client.go: NewObserveRequest: the Observe option is put on the built request with `SetObserve` (set semantics; read from the AST) -/\ndef newObserveRequestSetsObserve : Bool := %s\n", boolLean(containsCall(nor.Body, "SetObserve")))
 	b.WriteString("\nend CoapVerif.Generated.OptionListShape\n")
 	g.write("OptionListShape.lean", b.String())
 }
